@@ -16,6 +16,8 @@ Driver for C06.
 * stream `fillet`: `nSegs` / number of emitted arc vertices of `addDirectedFillet` against `Model/Buffer/Fillet.lean`.
 * stream `params`: accept / reject and stored / effective parameters against `Model/Buffer/Params.lean`.
 -/
+deriving instance Inhabited for GeosModel.Relate.Seg
+
 namespace Driver.C06
 open GeosModel GeosModel.Relate GeosModel.Kernel GeosModel.Buffer Driver.Flatten
 
@@ -299,6 +301,39 @@ def checkVertices (c : Case) (A : Flat) (vs : List Pt) (maxAbs : Int) (lower : B
           if okSide then go rest else some s!"bad side q={qEff} ratio={ratio} vertex={showH p}"
   go vs
 
+/-- single-sided buffer of lines (area result), only while |d| ≤ the shortest segment: half-way into the band on the
+requested side of a segment's midpoint must be inside the result; the mirror location on the other side must be outside
+unless another segment is within reach -/
+def checkBand (c : Case) (A : Flat) (res : List (List (List Pt))) (maxAbs : Int) (leftSide : Bool) (salt : Nat) : Option String :=
+  let cfgJoin := effJoin c.join
+  let r := mkRadii c (quadSegsEff c.q) cfgJoin .round maxAbs
+  let ad := ratAbs c.d
+  let segs := A.lineSegs
+  let reach := qOfRat (sq r.rOut * (if r.fJoin2 > 1 then r.fJoin2 else 1))
+  let half := approxDyadic (ad / 2) false
+  let rec go : List Seg → Option String
+    | [] => none
+    | s :: rest =>
+      let dx : Int := s.q.x - s.p.x; let dy : Int := s.q.y - s.p.y
+      let isq := (s.sqLen.toNat * 2 ^ 40).sqrt
+      if isq == 0 then go rest else
+      let inv : Rat := (((2 : Int) ^ 20 : Int) : Rat) / (isq : Rat)
+      let sc := approxDyadic (half * inv) false
+      let sgn : Rat := if leftSide then 1 else -1
+      let mx : Rat := ((s.p.x + s.q.x : Int) : Rat) / 2; let my : Rat := ((s.p.y + s.q.y : Int) : Rat) / 2
+      let pin := offsetPt mx my (-(dy : Rat) * sc * sgn) ((dx : Rat) * sc * sgn)
+      let pout := offsetPt mx my ((dy : Rat) * sc * sgn) (-(dx : Rat) * sc * sgn)
+      -- the claim is made only when the location is not across another nearby segment (sharp inside turns fold the band over)
+      let sameSide := segs.all fun t =>
+        !((d2Seg pin t).le reach) ||
+        (let dt := detH t.p t.q pin; if leftSide then decide (dt ≥ 0) else decide (dt ≤ 0))
+      if sameSide && locateResult res pin == .outside then some s!"bad band-in sample={showH pin}"
+      else
+        let othersFar := segs.all fun t => t == s || reach.le (d2Seg pout t)
+        if othersFar && locateResult res pout == .inside then some s!"bad band-out sample={showH pout}"
+        else go rest
+  go (pick segs 16 salt)
+
 def checkBuffer (stats : Bool) (line : String) : String :=
   match splitBar (Driver.tokens line) with
   | [["B"], tin, par, st, tres] =>
@@ -306,7 +341,6 @@ def checkBuffer (stats : Bool) (line : String) : String :=
     let get (k : String) : String := (o.lookup k).getD "?"
     match Driver.GTreeIO.parseGeom tin, Driver.parseHex64 (get "d"), Driver.parseHex64 (get "mitre") with
     | some (gin, []), some dbits, some mbits =>
-      if get "st" != "ok" then s!"bad null mode={get "mode"}" else
       match Driver.GTreeIO.parseGeom tres with
       | some (gres, []) =>
         let ords := ordsOf gin.g ++ ordsOf gres.g
@@ -325,8 +359,31 @@ def checkBuffer (stats : Bool) (line : String) : String :=
           let minL : Int := segL.foldl min (segL.headD 0)
           let big := !segL.isEmpty && decide (sq c.d > (minL : Rat))
           let closed := A.lines.any fun l => l.length ≥ 4 && l.head? == l.getLast?
-          let tag (e : String) : String := if e == "ok" || e.startsWith "stats" then e else e ++ s!" reg={if big then "big" else "small"} closed={if closed then 1 else 0}"
+          -- is the input linework "not simple": two segments of the lines meet anywhere except consecutive segments of one line at
+          -- their common vertex (and a closed line's first and last segment at the closing vertex), or a line repeats a point
+          let lineSegs : List (Nat × Nat × Nat × Bool × Seg) := (A.lines.zipIdx).flatMap fun (l, li) =>
+            let es := segsOf l
+            let isClosed := l.head? == l.getLast?
+            (es.zipIdx).map fun (e, si) => (li, si, es.length, isClosed, e)
+          let arr := lineSegs.toArray
+          let repeated := A.lines.any fun l => (edges l).any fun e => e.1 == e.2
+          let selfX := repeated || (List.range arr.size).any fun i => (List.range arr.size).any fun j =>
+            if j ≤ i then false
+            else
+              let (li, si, n, cl, a) := arr[i]!
+              let (lj, sj, _, _, b) := arr[j]!
+              let r := segRel a.p a.q b.p b.q
+              if li == lj && sj == si + 1 then
+                -- consecutive segments: retracing exactly, or (rounded coordinates) reversing within 10⁻⁶ rad
+                r == SegRel.overlap ||
+                (let ux := a.q.x - a.p.x; let uy := a.q.y - a.p.y; let vx := b.q.x - b.p.x; let vy := b.q.y - b.p.y
+                 let cr := ux * vy - uy * vx
+                 decide (ux * vx + uy * vy < 0) && decide (cr * cr * 1000000000000 ≤ a.sqLen * b.sqLen))
+              else if li == lj && cl && si == 0 && sj == n - 1 then r == SegRel.overlap
+              else r != SegRel.disjoint
+          let tag (e : String) : String := if e == "ok" || e.startsWith "stats" then e else e ++ s!" reg={if big then "big" else "small"} closed={if closed then 1 else 0} selfx={if selfX then 1 else 0}"
           tag <|
+          if get "st" != "ok" then s!"bad null mode={get "mode"}" else
           if c.mode == "buf" then
             match resultPolys toI gres.g with
             | none => "bad type"
@@ -339,7 +396,11 @@ def checkBuffer (stats : Bool) (line : String) : String :=
                 let left := c.d > 0
                 match checkVertices c A rings.flatten (Int.ofNat maxAbs) false left (!A.polys.isEmpty) big with
                 | some e => e ++ " mode=ss"
-                | none => "ok"
+                | none =>
+                  if big || !A.polys.isEmpty || !A.pts.isEmpty then "ok" else
+                  match checkBand c A res (Int.ofNat maxAbs) left salt with
+                  | some e => e ++ " mode=ss"
+                  | none => "ok"
               else
                 match checkSamples c A res (Int.ofNat maxAbs) salt big stats with
                 | some e => e
